@@ -1,6 +1,7 @@
 """C13, C14: the socket-backed sinks on real local sockets (UDP on 127.0.0.1, Unix datagram in a
 temp dir): what reaches the wire, the results, and the I/O statistics."""
 import random
+import re
 
 from . import common
 from .common import Report, case_hash
@@ -62,6 +63,13 @@ def gen_cases(rng, n):
         cases.append("BX d %s E666f6f3a317c63,l,E6261723a327c63,F,L,F" % q)
     for k in (0, 1, 2):
         cases.append("UA %d E666f6f3a317c63,E6261723a327c63" % k)
+    # buffered Unix sink: failed explicit / implicit flushes while the listener is away, then flushes after it is back
+    a, b, c = "E" + hx(b"foo:1|c"), "E" + hx(b"barbaz:22|c"), "E" + hx(b"q:3|c")
+    for cap in ("d", "8", "16", "24"):
+        for q in ("q0", "q1"):
+            for seq in ([a, "l", "F", "L", "F"], [a, "l", "F", "F", "L", "F", b, "F"], [a, b, "l", c, c, c, "F", "L", c, "F"],
+                        [a, "l", b, "L", "F", "F"], ["l", a, "F", "L", b, "F", "F"]):
+                cases.append("BX %s %s %s" % (cap, q, ",".join(seq)))
     # SocketStats::update with every kind of error (ext API), written != len included
     for k in range(20):
         cases.append("SU k5/5,e%d/7,k3/9,e%d/0" % (k, k))
@@ -233,6 +241,26 @@ def judge(case, obs):
             if not ok:
                 bad.append(("C13", "datagram %d (%d bytes) is neither whole lines within %d bytes nor an oversized metric alone" % (i, len(d), cap)))
                 break
+        # a flush that returned Ok while the listener is up: every metric acknowledged before it has reached the
+        # listener by then (N: datagrams received after each op)
+        if "N" in parts and parts["N"]:
+            seen = [int(x) for x in parts["N"].split(",")]
+            up = True
+            acked = []
+            for j, (op, r) in enumerate(zip(ops, res)):
+                if op == "l":
+                    up = False
+                elif op == "L":
+                    up = True
+                elif op[0] == "E" and r.startswith("k"):
+                    acked.append(unhx(op[1:]))
+                elif op == "F" and r == "k0" and up and not queued and j < len(seen):
+                    have = b"".join(dg[:seen[j]])
+                    missing = [m for m in acked if m not in have]
+                    if missing:
+                        bad.append(("C13", "flush (op %d) returned Ok with the listener up, but %r, acknowledged earlier, had not "
+                                    "reached it (%d datagrams received so far)" % (j, missing[0][:40], seen[j])))
+                        break
         # statistics are read before the drop: they count the datagrams sent so far; with the listener always
         # up nothing is ever dropped and nothing sent before the stats were read is missing
         if "l" not in ops:
@@ -273,6 +301,7 @@ def run_sock_check(prop, tier, seed):
         # XW: which sends the OS refuses is not the model's to predict; the unbuffered ones are replayed in the model
         # with the observed refusals as the fault script (listener down around every refused emit)
         raw = list(impl)
+        impl = [re.sub(r"\|N:[0-9,]*", "", o) for o in impl]       # per-op receive counts: judged, not modelled
         mcases = [xw_as_model_case(c, o) for c, o in zip(cases, impl)]
         model = common.run_model("sock", mcases)
         for i, c in enumerate(cases):
